@@ -1,6 +1,7 @@
 package main
 
 import (
+	"bytes"
 	"fmt"
 	"math/rand"
 	"os"
@@ -445,6 +446,17 @@ func runWrite(idx int, c writeCase, sub ...string) (string, []byte) {
 			args = append(args, "--chord", filepath.Join(dir, "chord.yml"))
 		}
 	}
+	// every fifth case writes through -o onto an existing file that is longer than the result
+	viaFile := idx%5 == 4 && len(sub) == 0
+	var outPath string
+	if viaFile {
+		dir := filepath.Join(outDir, fmt.Sprintf("wout-%d", idx))
+		must(os.MkdirAll(dir, 0o755))
+		defer os.RemoveAll(dir)
+		outPath = filepath.Join(dir, "out.mid")
+		must(os.WriteFile(outPath, bytes.Repeat([]byte("MTrk previous content "), 2000), 0o644))
+		args = append(args, "-o", outPath)
+	}
 	res := runCrd([]byte(yamlDoc(c.is)), 20*time.Second, args...)
 	switch res.class() {
 	case "crash":
@@ -454,6 +466,11 @@ func runWrite(idx int, c writeCase, sub ...string) (string, []byte) {
 			return "err-with-stdout", nil
 		}
 		return "err", nil
+	}
+	if viaFile {
+		b, err := os.ReadFile(outPath)
+		must(err)
+		return "ok", b
 	}
 	return "ok", res.stdout
 }
@@ -512,7 +529,8 @@ func genInstance(r *rand.Rand, malformed bool) rawInstance {
 	}
 	if r.Intn(4) == 0 {
 		var kv [][2]string
-		texts := []string{"hello", "", "a: b", "# not comment", "- dash", "'q'", "\"dq\"", "multi\nline", "é♯ü 日本", "  lead", "trail  ", "{x}", "[y]", "null", "true", "1e3", "~"}
+		texts := []string{"hello", "", "a: b", "# not comment", "- dash", "'q'", "\"dq\"", "multi\nline", "é♯ü 日本", "  lead", "trail  ", "{x}", "[y]", "null", "true", "1e3", "~",
+			"the end\n", "la la\n\n", "\nlead break", "a\r\nb\r\n", "\n", "tab\there", "x: |\n  y\n", "...", "---"}
 		for _, k := range []string{"txt", "lic", "mrk", "foo", "bpm"} {
 			if r.Intn(3) == 0 {
 				kv = append(kv, [2]string{k, texts[r.Intn(len(texts))]})
@@ -574,6 +592,18 @@ func genWriteCase(r *rand.Rand) writeCase {
 	}
 	for i := 0; i < n; i++ {
 		c.is = append(c.is, genInstance(r, i == bad))
+	}
+	if r.Intn(3) == 0 && n >= 3 { // few distinct symbols, used again and again in one run (state kept between chords)
+		pool := []string{symbols[r.Intn(len(symbols))], symbols[r.Intn(len(symbols))], symbols[r.Intn(len(symbols))]}
+		if r.Intn(2) == 0 {
+			fam := [][]string{{"7", "6", "M7", "add9", ""}, {"m7", "mM7", "m6", "m"}, {"m7b5", "dim7", "dim"}, {"9", "7", "M9", "maj9"}}[r.Intn(4)]
+			pool = fam
+		}
+		for i := range c.is {
+			if c.is[i].chord != nil && i != bad {
+				c.is[i].chord.name = pool[r.Intn(len(pool))]
+			}
+		}
 	}
 	if r.Intn(4) == 0 {
 		c.flags.key = keys28[r.Intn(28)]
@@ -694,6 +724,29 @@ func genDict(r *rand.Rand) ([]rawAttr, []rawChordDef, []string) {
 		queries = append(queries, c.name, c.display)
 		chords = append(chords, c)
 	}
+	if r.Intn(4) == 0 { // re-define a built-in long name, usually under a new symbol
+		bn := [][2]string{{"MajorTriad", ""}, {"Sixth", "6"}, {"DominantSeventh", "7"}, {"SeventhSuspendedFourth", "7sus4"}, {"DominantNinth", "9"}, {"MajorSeventh", "M7"},
+			{"MajorNinth", "M9"}, {"MinorTriad", "m"}, {"MinorSeventh", "m7"}, {"DiminishedTriad", "dim"}, {"SuspendedFourth", "sus4"}, {"AddedNinth", "add9"}}[r.Intn(12)]
+		c := rawChordDef{name: bn[0], display: bn[1]}
+		if r.Intn(3) != 0 {
+			c.display = fmt.Sprintf("z%d", r.Intn(3))
+		}
+		switch r.Intn(5) {
+		case 0:
+			c.extends = "NoSuchChord"
+		case 1:
+			c.attrs = []string{"Perfect1", "NoSuchAttr"}
+		case 2:
+			c.extends = bn[0] // self loop
+		case 3:
+			c.attrs = []string{"Perfect1", "Minor3", "Perfect5"}
+		case 4:
+			c.extends = parents[r.Intn(len(parents))]
+			c.attrs = []string{attrNames[r.Intn(len(attrNames))]}
+		}
+		chords = append(chords, c)
+		queries = append(queries, bn[0], bn[1], c.display)
+	}
 	// inconsistencies
 	switch r.Intn(10) {
 	case 0:
@@ -731,6 +784,15 @@ func streamDict() {
 		c := writeCase{flags: writeFlags{track: 1, instrument: "Piano"}, attrs: attrs, chords: chords}
 		q := queries[r.Intn(len(queries))]
 		c.is = []rawInstance{{chord: &rawChord{degree: sp("1"), name: q}, values: []string{"1"}}}
+		if r.Intn(2) == 0 { // several look-ups in one run, with repeats
+			for k := 0; k < 2+r.Intn(4); k++ {
+				q2 := queries[r.Intn(len(queries))]
+				if r.Intn(3) == 0 {
+					q2 = q
+				}
+				c.is = append(c.is, rawInstance{chord: &rawChord{degree: sp(degreeStrings[r.Intn(7)]), name: q2}, values: []string{"1"}})
+			}
+		}
 		cases = append(cases, c)
 	}
 	results := make([]string, len(cases))
@@ -836,6 +898,34 @@ func streamDiatonic() {
 			s.add(l[0], l[1])
 			s.stat(strings.SplitN(l[0], " ", 2)[0])
 		}
+	}
+	// `crd info key list`: all scales alive in one process, printed in order
+	{
+		res := runCrd(nil, 10*time.Second, "info", "key", "list")
+		real := res.class()
+		if real == "ok" {
+			var doc yaml.Node
+			must(yaml.Unmarshal(res.stdout, &doc))
+			var items []string
+			if len(doc.Content) > 0 {
+				for _, sc := range doc.Content[0].Content {
+					num := func(key string) string {
+						if x := mapGet(sc, key); x != nil {
+							return x.Value
+						}
+						return "0"
+					}
+					var notes []string
+					for _, n := range seqStrings(mapGet(sc, "notes")) {
+						notes = append(notes, hx(n))
+					}
+					items = append(items, fmt.Sprintf("%s %s %s %s", hx(mapGet(sc, "key").Value), num("flat"), num("sharp"), pList(notes)))
+				}
+			}
+			real = "ok " + pList(items)
+		}
+		s.add("keylist", real)
+		s.stat("keylist")
 	}
 }
 
